@@ -416,6 +416,8 @@ class SymExec:
                     p.assume += asm
                     for (a_, t_) in asm:
                         p.facts += cmp_facts(a_, t_)
+                        if self.atom_facts:
+                            p.facts += self.atom_facts(p, a_, t_)
                     p.frames[-1] = (fn, t['target'], 0, locs, dest, ret_bb)
                     continue
                 for (tr, val, asm) in outs:
@@ -427,6 +429,8 @@ class SymExec:
                     q.assume += asm
                     for (a_, t_) in asm:
                         q.facts += cmp_facts(a_, t_)
+                        if self.atom_facts:
+                            q.facts += self.atom_facts(q, a_, t_)
                     q.frames[-1] = (f2[0], t['target'], 0, f2[3], f2[4], f2[5])
                     self.work.append(q)
                 return
